@@ -48,13 +48,17 @@ def decide(prop, tier, seed, gdir, units, results, notes, wall):
                 for c in u.spec.funcs[r['function']].clauses:
                     if c.kind == 'ensures' and c.id == cid:
                         o = dict(o, tags=list(c.tags))
+            if o['status'] not in ('SUCCESS', 'FAILURE'):
+                # the back end gave no verdict for this obligation (solver killed, out of memory, ...): undecided
+                undec.append('%s: no verdict (%s) for %s' % (r['unit'], o['status'], o['id'][:120]))
+                continue
             if o['kind'] in ('unwind', 'spec-sanity') and o['status'] != 'SUCCESS':
                 undec.append('%s: %s %s: %s' % (r['unit'], o['kind'], o['status'], o['desc'][:200]))
                 continue
             if prop in o['tags']:
                 o = dict(o, unit=r['unit'], function=r['function'], maxcap=r['maxcap'], solver_s=r.get('solver_s'), modular=bool(r.get('replaced')))
                 obls.append(o)
-    refuted = [o for o in obls if o['status'] != 'SUCCESS']
+    refuted = [o for o in obls if o['status'] == 'FAILURE']
     known = load_known()
     lines = []
     viol = []
